@@ -1309,13 +1309,61 @@ func analyseListRoutine(c *Ctx, fn *ssa.Function) *listRoutine {
 		bad("loop is not `for i := 0; i < n; i++` over the header count")
 	}
 	// per-element emissions
-	isElemPtr := func(v ssa.Value) bool {
-		for _, r := range ptrRoots(v) {
-			if r != elemRoot {
+	// the current element, or - the optional-pointer chase of appendAny written out in the loop - the pointer loaded from it
+	// (PTR-CHASE decides whether that chase is conditioned on IsPointer)
+	var isElemPtr func(v ssa.Value) bool
+	isElemPtr = func(v ssa.Value) bool {
+		rs := ptrRoots(v)
+		for _, r := range rs {
+			if r == elemRoot {
+				continue
+			}
+			if !strings.HasPrefix(r, "load:") {
+				return false
+			}
+			// find the chase(s) behind this root: loads of an unsafe.Pointer through the element pointer
+			okChase := false
+			seen := map[ssa.Value]bool{}
+			var walk func(x ssa.Value)
+			walk = func(x ssa.Value) {
+				if x == nil || seen[x] {
+					return
+				}
+				seen[x] = true
+				switch y := x.(type) {
+				case *ssa.Phi:
+					for _, e := range y.Edges {
+						walk(e)
+					}
+				case *ssa.Convert:
+					walk(y.X)
+				case *ssa.ChangeType:
+					walk(y.X)
+				case *ssa.Call:
+					if isBuiltin(y, "Add") {
+						walk(y.Call.Args[0])
+					}
+				case *ssa.UnOp:
+					if y.Op == token.MUL && "load:"+path(y.X) == r && isUnsafePointer(y.Type()) {
+						inner := ptrRoots(y.X)
+						all := len(inner) > 0
+						for _, ir := range inner {
+							if ir != elemRoot {
+								all = false
+							}
+						}
+						if all {
+							okChase = true
+						}
+					}
+				}
+			}
+			walk(v)
+			if !okChase {
 				return false
 			}
 		}
-		return true
+		return len(rs) > 0
 	}
 	type part struct {
 		what string
@@ -1358,6 +1406,12 @@ func analyseListRoutine(c *Ctx, fn *ssa.Function) *listRoutine {
 				bad("%s: emission not sourced from the current element", c.InstrPos(e.Instr))
 				continue
 			}
+			if cs, subj := caseSet(e.Instr.Block(), ".T"); cs != nil && subj == elemDesc+".T" {
+				// the scalar switch of appendAny written out in the loop (T4 checks every case of it): part of the dispatch
+				parts = append(parts, part{what: "dyn", ev: e})
+				l.viaAny = true
+				continue
+			}
 			if viaLen {
 				if e.N != 4 {
 					bad("%s: string length emitted with %d bytes", c.InstrPos(e.Instr), e.N)
@@ -1370,6 +1424,11 @@ func analyseListRoutine(c *Ctx, fn *ssa.Function) *listRoutine {
 			ld := loadOf(e.Srcs[0])
 			if ld == nil || !isElemPtr(ld.Ptr) {
 				bad("%s: payload not sourced from the current element", c.InstrPos(e.Instr))
+				continue
+			}
+			if cs, subj := caseSet(e.Instr.Block(), ".T"); cs != nil && subj == elemDesc+".T" {
+				parts = append(parts, part{what: "dyn", ev: e})
+				l.viaAny = true
 				continue
 			}
 			if b, ok := ld.T.Underlying().(*types.Basic); !ok || b.Kind() != types.String {
